@@ -126,7 +126,7 @@ func filterGlob(pop []string, pat string) []string {
 
 func runKeyScan(t *rapid.T, engine string, parts int, recName string) {
 	nulFree := engine == "mem" && known.Active("C20-mem-radix-seek-lowerbound-nul")
-	sim, err := simkv.New(simkv.Options{Engine: engine, Partitions: parts})
+	sim, err := simkv.New(simkv.Options{Engine: engine, Partitions: parts, ExpPolicy: rapid.SampledFrom([]string{"wait_compact", "local_deletion"}).Draw(t, "policy")})
 	if err != nil {
 		t.Fatalf("HARNESS: %v", err)
 	}
@@ -320,7 +320,7 @@ func runKeyScan(t *rapid.T, engine string, parts int, recName string) {
 
 func runCollScan(t *rapid.T, engine string, recName string) {
 	nulFree := engine == "mem" && known.Active("C20-mem-radix-seek-lowerbound-nul")
-	sim, err := simkv.New(simkv.Options{Engine: engine})
+	sim, err := simkv.New(simkv.Options{Engine: engine, ExpPolicy: rapid.SampledFrom([]string{"wait_compact", "local_deletion"}).Draw(t, "policy")})
 	if err != nil {
 		t.Fatalf("HARNESS: %v", err)
 	}
